@@ -1,0 +1,31 @@
+//go:build verif
+
+package crypto
+
+// Verification hooks for property C14 (aggregate transaction signatures): thin exported
+// wrappers around the unexported transcript / coefficient / challenge helpers.
+
+// VerifAggregateWeighted returns the weighted aggregate key, the per-signer coefficients
+// (canonical scalar bytes, in signer order) and the signer transcript.
+func VerifAggregateWeighted(publics []*Key, signers []int) (Key, [][32]byte, []byte, error) {
+	key, coefficients, transcript, err := aggregateWeightedPublicKey(publics, signers)
+	if err != nil {
+		return Key{}, nil, nil, err
+	}
+	out := make([][32]byte, len(coefficients))
+	for i, c := range coefficients {
+		copy(out[i][:], c.Bytes())
+	}
+	return key, out, transcript, nil
+}
+
+// VerifAggregateChallenge returns the canonical bytes of H(commitment ‖ public ‖ message).
+func VerifAggregateChallenge(commitment, public []byte, message Hash) ([32]byte, error) {
+	var out [32]byte
+	x, err := aggregateChallenge(commitment, public, message)
+	if err != nil {
+		return out, err
+	}
+	copy(out[:], x.Bytes())
+	return out, nil
+}
